@@ -3,14 +3,17 @@ import props._rtcommon as R
 
 ASSUMPTIONS = [
     "generated problems stay inside the safe region of the generator (harness/gen.py): no xM shortcut, no three chained "
-    "shortcuts, no '#' in columns 1-5, every ZAID with a library — those are C08/C12 findings",
+    "shortcuts, no '#' in columns 1-5, every ZAID with a library, no interpolation that ends in 0 — those are C08/C12's",
     "spec.py is this framework's reading of the MCNP 6.2 manual (MCNP itself is not available)",
+    "the theorems are about coq/Model/Tree.v; they reach the real code through the per-run correspondence (dumped real "
+    "trees, first and second format, cell parameter loop, importance trees) and the per-input validation of the parser "
+    "hypothesis (flatten(parsed tree) == text read, up to the comment lines parse_input moves to the next input)",
 ]
 
 
 def run(ctx):
     ctx, tb, dist = R.run_rt(ctx, "C19", 400, 3000, with_edits=True)
-    return ctx.finish(tb, ASSUMPTIONS, "generated problems x edit programs: write twice, write with str/repr/format/write interleaved between the edits, and read MontePy's own output and write it again (generations); distinct = distinct (text, program)", extra={"input_distribution": dist})
+    return ctx.finish(tb, ASSUMPTIONS, 'generated problems x edit programs; double write, interleaved str/repr/format/write observations, generation g2 == g1 byte for byte; distinct = distinct (text, program)', extra={"input_distribution": dist})
 
 
 def replay(ctx, path):
